@@ -1,9 +1,135 @@
 import HedVerif.Driver.Util
+import HedVerif.Driver.Store
+import HedVerif.Model.Group
+import Std.Data.HashMap
 open Lean
 namespace HedVerif.Driver.C13
-open HedVerif HedVerif.Driver
+open HedVerif HedVerif.Driver HedVerif.Schema HedVerif.Group
 
-/-- requests `{"op":"c13.<name>", ...}` of property C13 (stub: none yet) -/
-def handle (_op : String) (_j : Json) : Option (Except String Json) := none
+/-- the driver's fold: ASCII lower case, character-wise (the harness only varies case over ASCII) -/
+def fc : Char → Char := Char.toLower
+
+def strList (j : Json) (k : String) : Except String (List Str) := do
+  (← getArr j k).mapM asStr
+
+def strListD (j : Json) (k : String) : Except String (List Str) :=
+  match j.getObjVal? k with
+  | .ok (Json.arr a) => a.toList.mapM asStr
+  | _ => .ok []
+
+/-- `{"ns": "sc:", "tags": [long names], "required": [...], "unique": [...]}` -/
+def member (j : Json) : Except String (Str × Member) := do
+  let ns ← getStr j "ns"
+  let tags ← strListD j "tags"
+  pure (ns, ⟨Vocab.build (foldS fc) (tags.map splitSlash), ← strListD j "required", ← strListD j "unique"⟩)
+
+def group (j : Json) : Except String Group := do
+  (← getArr j "members").mapM member
+
+/-- same shape as `c03.find` answers, for the member that owns the namespace -/
+def findJson (g : Group) (text : Str) : Json :=
+  let ns := namespaceOf text
+  let extra := [("prefix_issue", jbool (prefixIssue ns))]
+  match Group.find g fc text with
+  | .unmatched ns => jobj ([("err", Json.str "HED_LIBRARY_UNMATCHED"), ("ns", jstr ns)] ++ extra)
+  | .res r =>
+    match lookup g ns with
+    | none => jobj [("bad-op", Json.str "unreachable: resolved without a member")]
+    | some m =>
+      match r with
+      | .found i rem =>
+        jobj ([("node", jstr (joinSlash (m.vocab.name i))), ("rem", jstr rem), ("ns", jstr ns),
+              ("short", jstr (shortTag m.vocab ns i rem)), ("long", jstr (longTag m.vocab ns i rem))] ++ extra)
+      | .noValidTag stop =>
+        jobj ([("err", Json.str "NO_VALID_TAG_FOUND"), ("a", jnat ns.length), ("b", jnat (ns.length + stop))] ++ extra)
+      | .invalidParent a b x =>
+        jobj ([("err", Json.str "INVALID_PARENT_NODE"), ("a", jnat (ns.length + a)), ("b", jnat (ns.length + b)),
+              ("expected", jstr (joinSlash (m.vocab.name x)))] ++ extra)
+
+/-- evaluates `C03.WF` on a table -/
+def functionalTable (t : Table) : Bool := Id.run do
+  let mut m : Std.HashMap String Nat := {}
+  for (k, i) in t do
+    let ks := String.ofList (joinSlash k)
+    match m.get? ks with
+    | some j => if j != i then return false
+    | none => m := m.insert ks i
+  return true
+
+def tableMap (t : Table) : Std.HashMap String Nat := Id.run do
+  -- newest binding first in `t`: keep the first seen (= `Table.get`)
+  let mut m : Std.HashMap String Nat := {}
+  for (k, i) in t do
+    let ks := String.ofList (joinSlash k)
+    if !m.contains ks then m := m.insert ks i
+  return m
+
+def clashJson : Clash → Json
+  | .duplicate d => jobj [("err", Json.str "SCHEMA_DUPLICATE_NAMES"), ("dups", jarr (d.map jnat))]
+  | .rootedMissing r => jobj [("err", Json.str "ROOTED_TAG_DOES_NOT_EXIST"), ("root", jstr r)]
+  | .rootedNotRoot n => jobj [("err", Json.str "ROOTED_TAG_INVALID"), ("name", jstr (joinSlash n))]
+
+def libEntry (j : Json) : Except String LibEntry := do
+  let n ← getStr j "name"
+  let r := match j.getObjVal? "rooted" with
+    | .ok (Json.str s) => some s.toList
+    | _ => none
+  pure (splitSlash n, r)
+
+def handle (op : String) (j : Json) : Option (Except String Json) :=
+  match op with
+  | "c13.find" => some do
+      let g ← group j
+      let texts ← strList j "texts"
+      pure (jobj [("wellformed", jbool (wellFormed g)),
+                  ("wf", jarr (g.map fun e => jbool (functionalTable e.2.vocab.table))),
+                  ("results", jarr (texts.map (findJson g)))])
+  | "c13.attrs" => some do
+      let g ← group j
+      let anns ← (← getArr j "annotations").mapM fun a => do (← asArr a).mapM asStr
+      pure (jobj [("required_names", jarr ((tagsWithAttribute (·.required) g).map jstr)),
+                  ("unique_names", jarr ((tagsWithAttribute (·.unique) g).map jstr)),
+                  ("results", jarr (anns.map fun longs =>
+                    jobj [("required", jarr ((requiredIssues g fc longs).map jstr)),
+                          ("unique", jarr ((uniqueIssues g fc longs).map jstr))]))])
+  | "c13.prefix" => some do
+      let ns ← getStr j "ns"
+      pure (jobj [("issue", jbool (prefixIssue ns)),
+                  ("set", match setPrefix ns with
+                    | .ok p => jstr p
+                    | .error _ => Json.str "INVALID_LIBRARY_PREFIX")])
+  | "c13.versions" => some do
+      let vs ← strList j "versions"
+      match parseVersionList vs with
+      | .ok l => pure (jobj [("ok", jarr (l.map fun e => jarr [jstr e.1, jstr e.2]))])
+      | .error (.duplicateLibrary v) => pure (jobj [("err", Json.str "SCHEMA_DUPLICATE_LIBRARY"), ("version", jstr v)])
+      | .error _ => pure (jobj [("err", Json.str "other")])
+  | "c13.merge" => some do
+      -- {"base": [...], "nstd": n, "libs": [[{name, rooted}...], ...], "first_unchecked": bool}
+      let base := (← strList j "base").map splitSlash
+      let nstd ← getNat j "nstd"
+      let libs ← (← getArr j "libs").mapM fun l => do (← asArr l).mapM libEntry
+      let unchecked := getBoolD j "first_unchecked" false
+      let res : Except Clash (List Schema.Name) :=
+        match libs, unchecked with
+        | l :: ls, true => do
+          let first ← place fc base nstd l
+          ls.foldlM (fun cur lib => mergeInto fc cur nstd lib) first
+        | _, _ => libs.foldlM (fun cur lib => mergeInto fc cur nstd lib) base
+      match res with
+      | .error e => pure (clashJson e)
+      | .ok m =>
+        let vb := Vocab.build (foldS fc) base
+        let vm := Vocab.build (foldS fc) m
+        let mm := tableMap vm.table
+        -- conclusion of `merge_conservative`, evaluated: every key of the base is bound to the same entry
+        let kept := vb.table.all fun (k, _) =>
+          vb.table.get k == mm.get? (String.ofList (joinSlash k))
+        pure (jobj [("ok", jarr (m.map fun n => jstr (joinSlash n))), ("wf", jbool (functionalTable vm.table)),
+                    ("base_wf", jbool (functionalTable vb.table)),
+                    ("dups", jarr (vm.dups.map jnat)), ("base_keys", jnat vb.table.length),
+                    ("base_keys_kept", jbool kept),
+                    ("prefix_kept", jbool (m.take base.length == base))])
+  | _ => none
 
 end HedVerif.Driver.C13
